@@ -498,6 +498,12 @@ func rebuild(tc *tcase, seq []int) (*types.PartSet, *model) {
 }
 
 func checkComplete(tc *tcase, ps *types.PartSet, seq []int) {
+	if rec := vk.Catch(func() { checkComplete1(tc, ps, seq) }); rec != nil {
+		viol(tc, seq, "reading back the completed set panicked", map[string]any{"panic": fmt.Sprint(rec)})
+	}
+}
+
+func checkComplete1(tc *tcase, ps *types.PartSet, seq []int) {
 	for _, bs := range []int{1, 2, 3, 5, 7, tc.P, tc.P + 1, len(tc.data), len(tc.data) + 9} {
 		if bs <= 0 {
 			continue
@@ -639,6 +645,12 @@ func dedupSeq(seq []int) []int {
 
 // real block round trip: MakePartSet(65536) -> parts in several orders -> amino decode -> same hash/bytes.
 func realBlock(ntx, txsize int) {
+	if rec := vk.Catch(func() { realBlock1(ntx, txsize) }); rec != nil {
+		r.Violation(fmt.Sprintf("realblock(ntx=%d,txsize=%d) panicked", ntx, txsize), map[string]any{"panic": fmt.Sprint(rec)})
+	}
+}
+
+func realBlock1(ntx, txsize int) {
 	txs := make([]types.Tx, ntx)
 	for i := range txs {
 		b := make([]byte, txsize)
@@ -725,9 +737,9 @@ func main() {
 	patterns := []string{"const", "mod3", "distinct"}
 	maxExtra := 1
 	if r.Thorough() {
-		partSizes = []int{1, 2, 3, 4, 5, 16, 17}
+		partSizes = []int{1, 2, 3, 4, 16, 17}
 		maxParts = 6
-		maxExtra = 2
+		maxExtra = 1
 	}
 	type job struct {
 		tc                  *tcase
